@@ -25,6 +25,10 @@ META = {
 
 
 def run(prog, report, tier):
+    from .. import curverules as _cr
+    from .. import effects as _ef
+    _cr.check_closed_flag(prog, report)
+    _ef.check_global_memos(prog, report, {'src/mesh.py', 'src/parametrization.py'})
     curverules.check_polygon_ctor(prog, report)
     curverules.check_eval(prog, report)
     curverules.check_root_pieces(prog, report)
